@@ -409,14 +409,120 @@ def check_c04(ctx):
     check_all(ctx, {"ReplyOK", "unknown-backend"}, "C04")
 
 
+def run_conc(ctx, cases):
+    for i, c in enumerate(cases):
+        c["id"] = i + 1
+    res = ctx.harness("balancer", ["conc-run"], cases=cases, timeout=1500, race=True)
+    stderr = ctx.last_stderr or ""
+    if "DATA RACE" in stderr:
+        i = stderr.index("DATA RACE")
+        frames = [ln.strip() for ln in stderr[i:i + 3000].splitlines() if "bfenetworks/bfe/" in ln and "(" in ln][:2]
+        ctx.report("race/" + "|".join(f.split("(")[0].split("/")[-1] for f in frames), stderr[i - 20:i + 2500],
+                   case=None, harness="balancer", cmd="conc-run")
+    events = [x for x in res if "ev" in x]
+    summ = [x for x in res if x.get("summary")]
+    crash = [x for x in res if "_harness_exit" in x]
+    if not summ or (crash and "DATA RACE" not in stderr):
+        raise vlib.MachineryError("conc-run died: %s %s" % (res[-2:], stderr[-800:]))
+    tp = summ[0].get("table_phase", {})
+    ctx.cov["conc_table_phase"] = {k: (v if k != "panic" else bool(v)) for k, v in tp.items()}
+    if tp.get("panic"):
+        ctx.report("panic/table-reload-vs-balance", str(tp["panic"])[:1500], harness="balancer", cmd="conc-run")
+    if tp.get("hang"):
+        ctx.report("hang/table-reload-vs-balance", "Balance/Lookup did not return within 5 s", harness="balancer", cmd="conc-run")
+    details = {}
+    for i, e in enumerate(events):
+        e.pop("algo", None)
+        if "detail" in e:
+            details[i + 1] = e.pop("detail")
+    trace = "".join(json.dumps(e, separators=(",", ":")) + "\n" for e in events)
+    r = ctx.tlc("Balancer", "TraceConc", "TraceConc.cfg", mode="trace", timeout=1500,
+                extra_files={"trace.ndjson": trace}, count=False)
+    rep = [c for c in r.cases if c.get("done")]
+    if not r.ok or not rep or rep[0]["consumed"] != len(events):
+        raise vlib.MachineryError("TraceConc did not complete: %s %s" % (r.error or r.violation, r.out[-800:]))
+    by_id = {c["id"]: c for c in cases}
+    for b in rep[0]["bad"]:
+        lo = max(0, b["l"] - 6)
+        ctx.report("%s/conc" % b["why"], "events up to the rejected one: %s %s" %
+                   (str(events[lo:b["l"]])[:1200], details.get(b["l"], "")),
+                   case=by_id.get(b["cid"]), harness="balancer", cmd="conc-run")
+    npicks = sum(1 for e in events if e["ev"] == "pick_end")
+    ctx.cov["conc_events"] = {"events": len(events), "picks": npicks}
+    if npicks == 0:
+        raise vlib.MachineryError("concurrent driver recorded no picks")
+    ctx.traces(len(cases))
+
+
+def conc_cases(ctx, n, ops):
+    import random
+    rnd = random.Random(ctx.seed * 101 + 5)
+    out = []
+    for i in range(n):
+        out.append({"w": [rnd.randint(1, 3), rnd.randint(0, 2), rnd.randint(-1, 2), 1],
+                    "pickers": rnd.choice([2, 4, 8]), "ops": ops, "seed": ctx.seed * 1000 + i, "nolog": i % 2 == 1})
+    return out
+
+
+def run_gate(ctx):
+    """SlbGate.tla: an availability flip between the two passes of a least-connection pick, replayed
+    deterministically through the verif scheduler gate."""
+    q = ctx.tier == "quick"
+    d = {"N": 3, "MAXCONN": 1} if q else {"N": 3, "MAXCONN": 2}
+    ctx.cov["constants"]["MC_SlbGate"] = d
+    ctx.tlc_must_pass("Balancer", "SlbGate", "MC_SlbGate.cfg", defines=d, timeout=1800)
+    r = ctx.tlc("Balancer", "GenSlbGate", "Gen_SlbGate.cfg", mode="sim", sim_num=3000 if q else 40000, sim_depth=3,
+                defines={"N": 3, "MAXCONN": 2}, timeout=1800, count=False)
+    if not r.ok or not r.cases:
+        raise vlib.MachineryError("GenSlbGate failed: %s %s" % (r.error or r.violation, r.out[-400:]))
+    cases = r.cases
+    for i, c in enumerate(cases):
+        c["id"] = i + 1
+    res = ctx.harness("balancer", ["gate-run"], cases=cases, timeout=900)
+    summ = [x for x in res if x.get("summary")]
+    if not summ or summ[0]["cases"] != len(cases) or any("_harness_exit" in x for x in res):
+        raise vlib.MachineryError("gate-run died: %s" % res[-2:])
+    if summ[0]["gate_reached"] == 0:
+        raise vlib.MachineryError("the scheduler gate lc_second_pass was never reached (hook removed?)")
+    ctx.cov["gate_reached"] = summ[0]["gate_reached"]
+    nd = 0
+    for x in res:
+        if "ok" not in x:
+            continue
+        if x.get("drift"):
+            nd += 1
+            if nd == 1:
+                ctx.drift("action=LcPick(two passes) " + x["drift"])
+        if not x["ok"]:
+            ctx.report(x["sig"], x.get("detail", ""), case=x.get("case"), harness="balancer", cmd="gate-run")
+    ctx.traces(len(cases))
+    for c in cases:
+        ctx.count({k: c[k] for k in ("w", "conns", "av", "flips", "algo")}, nontrivial=len(c["flips"]) > 0)
+
+
 def check_c05(ctx):
+    q = ctx.tier == "quick"
     check_all(ctx, {"panic", "hang"}, "C05")
+    run_gate(ctx)
+    run_conc(ctx, conc_cases(ctx, 6 if q else 40, 300 if q else 800))
+    ctx.cov["rule"] += (" Plus really concurrent executions (picker goroutines over all five algorithms, one availability "
+                        "flipper per backend, a reloader, a slow-start setter; BalTable reloads against Balance), harness "
+                        "built with -race: call start/end events validated by TLC (TraceConc: every call returns, a "
+                        "returned backend may have been eligible at some instant of the call, an error only if at some "
+                        "instant nothing need have been eligible); half of the runs record nothing so that only the "
+                        "balancer's own locks order the goroutines (race detection).")
 
 
 PROPS = {"C06": check_c06, "C09": check_c09, "C02": check_c02, "C01": check_c01, "C03": check_c03, "C04": check_c04, "C05": check_c05}
 
 
 def replay(ctx, pid, rep):
+    if rep.get("cmd") == "conc-run":
+        for _ in range(3):
+            run_conc(ctx, [dict(rep["case"])] if rep.get("case") else conc_cases(ctx, 6, 300))
+        rc = ctx.finish()
+        print("replay: %s" % ("violation reproduced" if rc == 1 else "no violation on the current tree (3 runs)"))
+        return rc
     if rep.get("cmd") == "health-run":
         rc = 0
         for _ in range(5):           # concurrent: repeat the script a few times
@@ -429,7 +535,7 @@ def replay(ctx, pid, rep):
         rc = ctx.finish()
         print("replay: %s" % ("violation reproduced" if rc == 1 else "no violation on the current tree"))
         return rc
-    if rep.get("cmd") in ("gslb-run", "sticky-run"):
+    if rep.get("cmd") in ("gslb-run", "sticky-run", "gate-run"):
         res = ctx.harness("balancer", [rep["cmd"]], cases=[rep["case"]], timeout=600)
         for x in res:
             print(json.dumps(x)[:600])
